@@ -78,6 +78,7 @@ type Op struct {
 	B int64  `json:"b,omitempty"`
 	C int64  `json:"c,omitempty"`
 	D int64  `json:"d,omitempty"`
+	E int64  `json:"e,omitempty"`
 	S string `json:"s,omitempty"`
 	F bool   `json:"f,omitempty"`
 }
